@@ -386,6 +386,12 @@ int main(int argc, char **argv) {
   aw_tracking = 1;
   /* how many blocks does m4ri_fini() release that were allocated before tracking started (code book)? measure in a child */
   { int pfd[2]; if (pipe(pfd)) return 2; pid_t p = fork(); if (p == 0) { long a = aw_live; m4ri_fini(); long dlt = aw_live - a; if (write(pfd[1], &dlt, sizeof dlt) < 0) _exit(3); _exit(0); } int st; waitpid(p, &st, 0); if (read(pfd[0], &FINI_DELTA, sizeof FINI_DELTA) != sizeof FINI_DELTA) { fprintf(stderr, "HARNESS-ERROR: fini probe\n"); return 2; } close(pfd[0]); close(pfd[1]); }
+  if (atoi(arg(argc, argv, "replay-scripted", "0"))) {
+    scripted();
+    for (uint64_t i = 0; i < S->nfail && i < MAXF; i++) printf("FAIL %s | %s : %s\n", S->fails[i].clause, S->fails[i].path, S->fails[i].msg);
+    printf("replayed the scripted families: %llu failure(s)\n", (unsigned long long)S->nfail);
+    return S->nfail ? 1 : 0;
+  }
   if (replay) {
     /* --replay=<start>=<op,op,...> : sequential re-execution without the explorer */
     int nlive = atoi(replay); setup_start(nlive); PLEN = snprintf(PATH, sizeof PATH, "start=%d=", nlive);
